@@ -555,8 +555,8 @@ def evalBase (s : Scheme) (c : Ctx) : IExpr → EM VRes
                 (match collect (kvs.map (·.2)) with
                  | .error e => .error e
                  | .ok l => if l.all (fun x => x.typeOf == ret) then .ok (.ok (.array ret l)) else .error .tryFromIter)
-              | .array t xs =>
-                if xs.isEmpty then .ok (.ok (.array t []))
+              | .array _ xs =>
+                if xs.isEmpty then .ok (.ok (.array ret []))
                 else
                   (match collect xs with
                    | .error e => .error e
